@@ -58,7 +58,7 @@ func (m *MethodScope) resolveVarNameConflict(suggested string) string {
 				conflict.Name += "1"
 			}
 			m.conflicted[suggested] = true
-			n++
+			continue
 		}
 		return suggested + strconv.Itoa(n)
 	}
